@@ -229,12 +229,14 @@ def replay_codec(prop, res, f, repo, outbase, gen, timeout):
     """the byte-order leaf functions on THIS host: _isSystemBigEndian() against the compiler's __BYTE_ORDER__,
     swapBytes against a shift-based byte swap, writeBinaryValue's bytes against the little-endian encoding,
     readBinaryValue of those bytes against the value (clauses endian.ok, swap.ok, wr.ok, rd.ok)"""
-    tmpf = outbase + '.codec.bin'
+    tmpf = outbase + '.bin.codec.bin'
     src = '''#include "BaseGraph/fileio.hpp"
 #include <cstdio>
 #include <fstream>
-int main() {
+#include <string>
+int main(int argc, char **argv) {
   int rc = 0;
+  const std::string tmp = std::string(argv[0]) + ".codec.bin";
   const bool host_big = __BYTE_ORDER__ == __ORDER_BIG_ENDIAN__;
   if (BaseGraph::io::_isSystemBigEndian() != host_big) { printf("CLAUSE FALSE ON THE REAL CODE: endian.ok: _isSystemBigEndian() returns %d on a %s-endian host\\n", (int)BaseGraph::io::_isSystemBigEndian(), host_big ? "big" : "little"); rc = 1; }
   const unsigned vals[] = {0u, 1u, 258u, 0x01020304u, 0xfffefdfcu, 0x80000000u};
@@ -259,7 +261,7 @@ int main() {
   printf("%zu values replayed on this %s-endian host\\n", sizeof vals / sizeof *vals, host_big ? "big" : "little");
   return rc;
 }
-'''.replace('%s"', tmpf + '"')
+'''.replace('"%s"', 'tmp.c_str()')
     cpp, exe = outbase + '.cpp', outbase + '.bin'
     open(cpp, 'w').write(src)
     cmd = ['g++', '-std=c++14', '-O1', '-w', '-I', os.path.join(repo, 'include'), cpp, '-o', exe]
@@ -443,12 +445,12 @@ def replay_loader(prop, res, f, repo, index, outbase, gen, sp, target, timeout):
     own = cl is not None and cl.get('fn') == target and cl.get('kind') == 'ensures'
     oracle = [c for c in clauses if c.kind == 'ensures' and (c.src == cl['src'] if own else (c.enabled(prop) and '__CPROVER_is_fresh' not in c.expr))]
     pre = [c for c in clauses if c.kind == 'requires' and c.enabled(prop)]
-    tmpf = outbase + '.edges.bin'
+    tmpf = outbase + '.bin.edges.bin'
     tmpl = 'BaseGraph::LabeledUndirectedGraph' if rinfo['undirected'] else 'BaseGraph::LabeledDirectedGraph'
     L = ['#include "native.hpp"', '#include "BaseGraph/fileio.hpp"', '#include "view.h"', '#include <fstream>',
          'typedef %s RG;' % rinfo['graph'], 'typedef %s RAbs;' % rinfo['abs'],
          '#define __CPROVER_is_fresh(p, n) 1', 'bg_file_t bg_file; bg_bool bg_SYSTEM_IS_BIG_ENDIAN = 0;', 'static const char *bg_failed = 0;',
-         'int main() {', '  long calls = 0; int rc = 0; const char *path = "%s";' % tmpf, '  bg_install_handlers();',
+         'int main(int argc, char **argv) {', '  long calls = 0; int rc = 0; std::string path_s = std::string(argv[0]) + ".edges.bin"; const char *path = path_s.c_str();', '  bg_install_handlers();',
          '  const int V = 3, MAXREC = 3;',
          '  for (int len = 0; len <= MAXREC && !rc; ++len) {',
          '    long combos = 1; for (int k = 0; k < len; ++k) combos *= V * V;',
